@@ -24,6 +24,49 @@ var Props = map[string]PropRunner{
 		RunE0(r, p)
 	},
 	"C05": func(r *Run) { RunE0(r, e0Profile("C05", "C05")) },
+	"C06": func(r *Run) {
+		p := e0Profile("C06", "C06")
+		p.CodecSwarm = true
+		p.Weights[opByz] = 14
+		p.Weights[opPolicy] = 8
+		p.Weights[opDenied] = 5
+		p.Weights[opAlgebra] = 0
+		p.Weights[opSpecial] = 1
+		RunE0(r, p)
+	},
+	"C07": func(r *Run) {
+		p := e0Profile("C07", "C07")
+		p.CodecSwarm = true
+		p.Weights[opTamper] = 40
+		p.Weights[opAlgebra] = 0
+		p.Weights[opSpecial] = 0
+		RunE0(r, p)
+	},
+	"C08": func(r *Run) {
+		p := e0Profile("C08", "C08")
+		p.CodecSwarm = true
+		p.Weights[opPublish] = 10
+		RunE0(r, p)
+	},
+	"C15": func(r *Run) {
+		p := e0Profile("C15", "C15")
+		p.Weights[opIter] = 40
+		p.Weights[opAlgebra] = 0
+		RunE0(r, p)
+	},
+	"C16": func(r *Run) {
+		p := e0Profile("C16", "C16")
+		p.Weights[opBounded] = 30
+		p.Weights[opAlgebra] = 0
+		RunE0(r, p)
+	},
+	"C18": func(r *Run) {
+		p := e0Profile("C18", "C18")
+		p.LinkKey = true
+		p.Weights[opReader] = 10
+		p.Weights[opAlgebra] = 0
+		RunE0(r, p)
+	},
 }
 
 func RunProp(prop string, r *Run) Outcome {
